@@ -21,7 +21,7 @@ class SpecMixin(object):
         'pubev', 'ev_w', 'ev_topic', 'ev_pid', 'ev_code', 'at', 'truthy', 'val', 'vnone',
         'prefix_of', 'suffix_of', 'contains', 'index_of', 'str_to_int', 'iff', 'distinct_keys',
         'null', 'isnull', 'in_re', 'last', 'card', 'real', 'tag_eq', 'obj_of', 'same_ghost',
-        'str_of_int', 'length',
+        'str_of_int', 'length', 'ref_id',
     ])
 
     # ------------------------------------------------------------------ entry points
@@ -73,6 +73,7 @@ class SpecMixin(object):
         o = st.old.copy()
         o.env = dict(st.env)
         o.pc = st.pc
+        o.old = o          # old(old(e)) = old(e)
         return self.ev1(e.args[0], o)
 
     def spec_at(self, e, st):
@@ -194,6 +195,10 @@ class SpecMixin(object):
         a = self.ev1(e.args[0], st)
         cls = e.args[1].value
         return SV(TRef(cls), z3.If(Val.is_VRef(a.z), Val.vx(a.z), 0))
+
+    def spec_ref_id(self, e, st):
+        (a,) = self._args(e, st)
+        return SV(INT, Val.vx(a.z)) if a.ty == VAL else SV(INT, a.z)
 
     def spec_val(self, e, st):
         (a,) = self._args(e, st)
